@@ -186,7 +186,21 @@ def check(case, ctx):
     sb = spec_bool(s)
     got = _loader.resolve(yaml.ScalarNode, s, (True, False))
     if sf == 'unspecified':
+        # signed .nan: the core schema does not list it, so either typing is
+        # accepted - but what it resolves to must be what is constructed
         ctx.count('signed_nan_unspecified')
+        if is_plain_scalar(s):
+            try:
+                v = _load(s)
+            except Exception as e:
+                ctx.finding('e2e', 'resolved_but_not_constructible:' + type(e).__name__,
+                            'load_function()(%r) raised %r although the resolver types it as %s'
+                            % (s, e, got))
+                return
+            ok = (type(v) is float and math.isnan(v)) if got == FLOAT else (type(v) is str and v == s)
+            if not ok:
+                ctx.finding('e2e', 'resolution_and_construction_disagree',
+                            'load_function()(%r) returned %r, the resolver says %s' % (s, v, got))
         return
     if sb:
         want = BOOL
